@@ -129,6 +129,32 @@ pub struct Case {
     /// limit: uncompressed-size field of the .lzma header (default u64::MAX = unknown)
     #[serde(default)]
     pub uncomp: Option<u64>,
+    /// dec_*: length of the caller's buffer handed to every read() call (default 64 KiB)
+    #[serde(default)]
+    pub read_len: Option<usize>,
+}
+
+/// Number of (LZMA, uncompressed) chunks of an LZMA2 stream.
+fn lzma2_chunk_kinds(b: &[u8]) -> (usize, usize) {
+    let (mut lz, mut unc, mut i) = (0usize, 0usize, 0usize);
+    while i < b.len() && b[i] != 0 {
+        let c = b[i];
+        if c >= 0x80 {
+            if i + 5 > b.len() {
+                break;
+            }
+            let cs = ((b[i + 3] as usize) << 8) + b[i + 4] as usize + 1;
+            i += (if c >= 0xC0 { 6 } else { 5 }) + cs;
+            lz += 1;
+        } else {
+            if i + 3 > b.len() {
+                break;
+            }
+            i += 3 + ((b[i + 1] as usize) << 8) + b[i + 2] as usize + 1;
+            unc += 1;
+        }
+    }
+    (lz, unc)
 }
 
 fn est_value(r: Result<Result<u32, String>, String>) -> Value {
@@ -143,7 +169,22 @@ pub fn run_case(c: &Case) -> Value {
     let _g = GUARD.lock().unwrap_or_else(|e| e.into_inner());
     let mut res = json!({"id": c.id, "kind": c.kind});
     let l = lzma_options(&c.opts);
-    let data = gen::data(c.data.as_deref().unwrap_or("text"), c.input_len, 5);
+    // "a+b": alternating stretches of the classes a and b, each long enough to fill whole LZMA2 chunks of its own kind
+    let class = c.data.as_deref().unwrap_or("text");
+    let data = if class.contains('+') {
+        let parts: Vec<&str> = class.split('+').collect();
+        let seg = (c.input_len / 4).max(70_000);
+        let mut v = Vec::with_capacity(c.input_len);
+        let mut k = 0usize;
+        while v.len() < c.input_len {
+            let n = seg.min(c.input_len - v.len());
+            v.extend_from_slice(&gen::data(parts[k % parts.len()], n, 5 + k as u64));
+            k += 1;
+        }
+        v
+    } else {
+        gen::data(class, c.input_len, 5)
+    };
     match c.kind.as_str() {
         "est" => {
             // all four public estimators on the same parameters; pure arithmetic, nothing is allocated
@@ -219,7 +260,13 @@ pub fn run_case(c: &Case) -> Value {
             } else {
                 est_value(contain(|| lzma_get_memory_usage_by_props(l.dict_size, l.get_props()).map_err(|e| e.to_string())))
             };
-            let mut buf = vec![0u8; 1 << 16];
+            if lzma2 {
+                let (lz, unc) = lzma2_chunk_kinds(&stream);
+                res["chunks_lzma"] = json!(lz);
+                res["chunks_unc"] = json!(unc);
+            }
+            // the caller's buffer is the caller's memory: allocated outside the measurement window
+            let mut buf = vec![0u8; c.read_len.unwrap_or(1 << 16).max(1)];
             let mut total = 0usize;
             let r = contain(|| {
                 let w = Window::start(true);
